@@ -329,6 +329,17 @@ func e2eChild(c *vkit.Ctx) {
 		g.Conns = append(g.Conns, cs)
 		next++
 	}
+	if idx%len(variants) == 3 {
+		// and one long, paced connection on which carriers and non-carriers alternate for as long as the reloads go on: a value
+		// that survives in a recycled record shows on the next record whatever the machine's speed (every reload of this run
+		// loads the configuration with the extraction, see the plan below)
+		cs := e2e.ConnSpec{ID: next, WriteSize: 140, GapUs: 500}
+		for s := 1; s <= 300; s++ {
+			cs.Recs = append(cs.Recs, e2e.Rec{Conn: next, Seq: s, App: "appA", Sev: 6, Host: "h1", Kind: []string{"plain", "ticket"}[s%2], Pad: 10})
+		}
+		g.Conns = append(g.Conns, cs)
+		next++
+	}
 	// key sets that appear only after reloads: their pipelines are created lazily from the then-current configuration
 	for k := 0; k < 3; k++ {
 		cs := e2e.ConnSpec{ID: next, StartMs: 60 + r.Intn(120)}
@@ -380,7 +391,11 @@ func e2eChild(c *vkit.Ctx) {
 			plan = append(plan, variants[idx%len(variants)]) // every kind of new configuration occurs in every tier
 			continue
 		}
-		plan = append(plan, variants[r.Intn(len(variants))])
+		v := variants[r.Intn(len(variants))]
+		if idx%len(variants) == 3 {
+			v = variants[3] // the added field stays for the whole run
+		}
+		plan = append(plan, v)
 	}
 	c.LogCase(fmt.Sprintf("e2e:%d:%s", idx, fam))
 	wantOK, wantKO := 0, 0
